@@ -109,6 +109,21 @@ func (c *c09) Init(env *Env) error {
 		{Name: "c09-whole-file", Src: "find all whole file", Text: "abc"},
 		{Name: "c09-caseless-eof", Src: "find all caseless 'abc' caseless 'd'", Text: "ABCd abc"},
 		{Name: "c09-range-eof", Src: "find all 'k' in 'a' to 'f'", Text: "ka kz k"},
+		// transforms and predicates applied to arbitrary single characters and short runs
+		{Name: "c09-num-each-char", Src: "set t to transform\n  return match * 2\nend\nreplace all any with t", Text: "+-1 a.9 -"},
+		{Name: "c09-num-signs", Src: "set t to transform\n  return match + 1 - 2\nend\nreplace all at least 1 not whitespace with t", Text: "+ - +7 -3 10 - x"},
+		{Name: "c09-pred-each-char", Src: "set p to pattern any begin return match >= 0 end\nfind all p", Text: "+-0a 9"},
+		{Name: "c09-pred-signed", Src: "set p to pattern maybe (in '+', '-') at least 0 digit begin return match > 5 end\nfind all p", Text: "+7 - 10 + 3-"},
+		{Name: "c09-compare-str-num", Src: "set t to transform\n  if match == 0 then\n    return 'zero'\n  end\n  return match % 3\nend\nreplace all at least 1 not whitespace with t", Text: "0 + 12 - x 7"},
+		{Name: "c09-head-tail-each", Src: "set t to transform\n  return tail match + head match\nend\nreplace all any with t", Text: "ab +"},
+		// `with` parts made only of variables that may not be bound for a given match
+		{Name: "c09-with-unbound-alt", Src: "replace all (('a') = x) or 'b' with x", Text: "abab ba"},
+		{Name: "c09-with-unbound-maybe", Src: "replace all 'k' maybe ('z' = y) with y", Text: "k kz kk"},
+		{Name: "c09-with-hashmap-var", Src: "replace all at least 1 (digit = d) named ds with ds", Text: "12 3 x"},
+		{Name: "c09-with-never-captured", Src: "replace all 'a' with nothing", Text: "aba"},
+		{Name: "c09-with-two-vars", Src: "replace all (('a') = x) or (('b') = y) with x y", Text: "ab c ba"},
+		// several commands over one file, a replace first (readers and writers of one file in sequence)
+		{Name: "c09-replace-then-find", Src: "replace all 'a' with 'b'\nfind all 'b'\nfind all 'a'", Text: "abab"},
 	}
 	var total uint64
 	for _, it := range append(extra, corp.Items...) {
